@@ -14,6 +14,7 @@ import (
 	"fmt"
 	"go/ast"
 	"go/token"
+	"strings"
 
 	. "verifharness/genlib"
 )
@@ -153,4 +154,148 @@ func printEthereumTx(kfiles []File) {
 	fmt.Println("   again on EVERY return path: the clear is deferred before any return that follows the acquisition *)")
 	fmt.Printf("Definition c03_ethereumtx_obtains_tx_statedb : bool := %s.\n", CoqBool(acquires))
 	fmt.Printf("Definition c03_ethereumtx_clears_on_every_return : bool := %s.\n", CoqBool(clears))
+}
+
+// ---------------------------------------------------------------- the sender-balance precheck of the ante chain
+//
+// keeper.CheckSenderBalance(balance, txData, …): WHAT is the balance compared with — TxData.Cost()
+// (gas * feeCap + value: go-ethereum's buyGas check) or an effective cost?  Printed as one boolean, the
+// [cap_check] parameter of the admission predicate [ante] of coq/C03/Msg.v; plus whether an AnteHandle of
+// app/evmante calls CheckSenderBalance at all.  Normal form: the methods invoked on the TxData parameter
+// (also inside same-package helpers it is handed to) — names of locals, the comparison idiom
+// (Cmp / Sign of a difference), error texts and extra parameters do not matter.
+
+func txDataParams(fd *ast.FuncDecl) map[string]bool {
+	out := map[string]bool{}
+	if fd.Type.Params == nil {
+		return out
+	}
+	for _, p := range fd.Type.Params.List {
+		tn := Nospace(p.Type)
+		if tn == "evm.TxData" || tn == "TxData" {
+			for _, n := range p.Names {
+				out[n.Name] = true
+			}
+		}
+	}
+	return out
+}
+
+func (e *ethtx) txDataMethods(fd *ast.FuncDecl, depth int, acc map[string]bool) {
+	if fd == nil || fd.Body == nil || depth == 0 {
+		return
+	}
+	ps := txDataParams(fd)
+	ast.Inspect(fd.Body, func(x ast.Node) bool {
+		c, ok := x.(*ast.CallExpr)
+		if !ok {
+			return true
+		}
+		if sel, ok := c.Fun.(*ast.SelectorExpr); ok {
+			if id, ok := sel.X.(*ast.Ident); ok && ps[id.Name] {
+				acc[sel.Sel.Name] = true
+			}
+		}
+		// the TxData handed on to a same-package helper
+		if h, ok := e.funcs[calleeName(c)]; ok {
+			for _, a := range c.Args {
+				if id, ok := a.(*ast.Ident); ok && ps[id.Name] {
+					e.txDataMethods(h, depth-1, acc)
+					break
+				}
+			}
+		}
+		return true
+	})
+}
+
+func printSenderBalanceCheck(kfiles, afiles []File) {
+	e := &ethtx{funcs: map[string]*ast.FuncDecl{}}
+	for _, fl := range kfiles {
+		for _, d := range fl.F.Decls {
+			if fd, ok := d.(*ast.FuncDecl); ok {
+				e.funcs[fd.Name.Name] = fd
+			}
+		}
+	}
+	methods := map[string]bool{}
+	e.txDataMethods(e.funcs["CheckSenderBalance"], 3, methods)
+	effective := false
+	for m := range methods {
+		if len(m) >= 9 && m[:9] == "Effective" {
+			effective = true
+		}
+	}
+	called := false
+	for _, fl := range afiles {
+		for _, d := range fl.F.Decls {
+			fd, ok := d.(*ast.FuncDecl)
+			if !ok || fd.Body == nil || fd.Name.Name != "AnteHandle" {
+				continue
+			}
+			ast.Inspect(fd.Body, func(x ast.Node) bool {
+				if c, ok := x.(*ast.CallExpr); ok && calleeName(c) == "CheckSenderBalance" {
+					called = true
+				}
+				return !called
+			})
+		}
+	}
+	fmt.Println("(* the ante chain calls keeper.CheckSenderBalance, and that compares the sender balance with TxData.Cost()")
+	fmt.Println("   (gas * feeCap + value, go-ethereum's buyGas check) and with no effective (base-fee dependent) cost *)")
+	fmt.Printf("Definition c03_ante_calls_check_sender_balance : bool := %s.\n", CoqBool(called))
+	fmt.Printf("Definition c03_sender_balance_checked_against_cap_cost : bool := %s.\n", CoqBool(methods["Cost"] && !effective))
+}
+
+// ---------------------------------------------------------------- the fee-cap floor of the ante chain
+//
+// The AnteHandle of app/evmante that rejects with ErrInsufficientFee after a test involving a gas / fee
+// CAP: does it compare the fee cap ITSELF with the base fee, or an "effective" cap (max(baseFee, cap),
+// which can never be below the base fee)?  Normal form: the condition of the `if` whose body returns
+// ErrInsufficientFee, with locals replaced by what they were defined from; the order of the operands and
+// the comparison idiom do not matter.
+
+func printFeeCapFloor(afiles []File) {
+	enforced := false
+	for _, fl := range afiles {
+		for _, d := range fl.F.Decls {
+			fd, ok := d.(*ast.FuncDecl)
+			if !ok || fd.Body == nil || fd.Name.Name != "AnteHandle" {
+				continue
+			}
+			defs := map[string]string{}
+			ast.Inspect(fd.Body, func(x ast.Node) bool {
+				if as, ok := x.(*ast.AssignStmt); ok && len(as.Lhs) == len(as.Rhs) {
+					for i, l := range as.Lhs {
+						if id, ok := l.(*ast.Ident); ok {
+							defs[id.Name] = Nospace(as.Rhs[i])
+						}
+					}
+				}
+				return true
+			})
+			ast.Inspect(fd.Body, func(x ast.Node) bool {
+				is, ok := x.(*ast.IfStmt)
+				if !ok || !strings.Contains(Nospace(is.Body), "ErrInsufficientFee") {
+					return true
+				}
+				cond := Nospace(is.Cond)
+				ast.Inspect(is.Cond, func(y ast.Node) bool {
+					if id, ok := y.(*ast.Ident); ok {
+						if d, ok := defs[id.Name]; ok {
+							cond += " " + d
+						}
+					}
+					return true
+				})
+				if (strings.Contains(cond, "FeeCap") || strings.Contains(cond, "GasCap")) && !strings.Contains(cond, "Effective") {
+					enforced = true
+				}
+				return true
+			})
+		}
+	}
+	fmt.Println("(* the ante chain rejects a message whose fee cap / gas price ITSELF is below the base fee (false: it tests an")
+	fmt.Println("   effective cap that is never below the base fee, so such a message is admitted and charged at the base fee) *)")
+	fmt.Printf("Definition c03_ante_rejects_fee_cap_below_base_fee : bool := %s.\n", CoqBool(enforced))
 }
